@@ -12,6 +12,12 @@ Open Scope list_scope.
    guard, advance the guard time, step the parent, append, trim, counter, skip test, union *)
 Lemma win_step_order_ok : win_step_order = [0; 1; 2; 3; 4; 5; 6; 7].
 Proof. reflexivity. Qed.
+(* TransformedDStream._step: guard, step the parent, set the guard time, apply the function;
+   StatefulDStream._step: guard, step the parent, set the guard time, cogroup, mapValues(convert_fn), publish;
+   convert_fn passes the last element of the state list *)
+Lemma other_step_orders_ok :
+  tr_step_order = [0; 1; 2; 3] /\ st_step_order = [0; 1; 2; 3; 4; 5] /\ st_state_index_from_end = 1.
+Proof. repeat split; reflexivity. Qed.
 
 (* ---------- list update ---------- *)
 Lemma upd_length {A} i (f : A -> A) l : length (upd i f l) = length l.
